@@ -1,4 +1,88 @@
-From Core Require Import GenQueryFacts.
+(** C13 -- Initial assignments resolve once at t=0; derived parameters are state-free.
+
+    ONLY theorem statements (written out in full), each closed by [exact <lemma>] and followed by
+    [Print Assumptions].  The statements are about the executable model of [Model._create_cache] /
+    [Model._get_args] (../core/Cache.v, Query.v -- tied to the source by the correspondence check
+    of harness/c13.py and by [C13_facts_pinned]) run with the sorter facts [gen_sort_facts]
+    REGENERATED from /repo/src/mxlpy/model.py, for EVERY meaning [fsem]/[fsemN] of the Python
+    functions, every model, state and time.  Vocabulary ([WF], [comp_holds], [OnlyParams]): Spec.v. *)
+From Coq Require Import ZArith List Bool.
+From MxlBase Require Import ListX.
+From Core Require Import Sort GenSortFacts Model Cache Query GenQueryFacts.
+From Core Require FnLib.
+From CoreP Require Import Spec ProofsTop ExModel.
+Import ListNotations.
+
 Theorem C13_facts_pinned : gen_query_facts = mkQueryFacts true true true.
 Proof. vm_compute. reflexivity. Qed.
 Print Assumptions C13_facts_pinned.
+
+(** C13-a: initial assignments are evaluated once, at time 0, from the declared initial state,
+    after everything they name: there is ONE environment [e0] (time = 0, plain parameters and
+    plain initial values as declared) in which every initial assignment, derived quantity,
+    reaction rate and surrogate output is its function applied to the values its arguments have
+    in [e0]; the initial conditions the cache reports (what simulations start from) are the
+    variables' values in [e0], and every assignment-defined parameter is frozen at its value in [e0]. *)
+Theorem C13_initial_assignments_resolved_once :
+  forall fsem fsemN m c,
+    WF m -> create_cache fsem fsemN gen_sort_facts m = Val c ->
+    exists e0,
+      lookup time_name e0 = Some 0%Z
+      /\ (forall p v, In (p, Plain v) (m_par m) -> lookup p e0 = Some v)
+      /\ (forall x v, In (x, Plain v) (m_var m) -> lookup x e0 = Some v)
+      /\ (forall nm cmp, In (nm, cmp) (to_sort m) -> comp_holds fsem fsemN nm cmp e0)
+      /\ keys (c_init c) = keys (m_var m)
+      /\ (forall x, In x (keys (m_var m)) -> lookup x (c_init c) = lookup x e0)
+      /\ (forall p f a, In (p, IA f a) (m_par m) -> lookup p (c_all_par c) = lookup p e0).
+Proof. exact (initial_assignments_resolved_once gen_sort_facts gen_sc). Qed.
+Print Assumptions C13_initial_assignments_resolved_once.
+
+(** C13-b: reported as derived parameter  <=>  depends, through any chain, only on parameters *)
+Theorem C13_classification :
+  forall fsem fsemN m c d,
+    WF m -> create_cache fsem fsemN gen_sort_facts m = Val c ->
+    (In d (derived_parameter_names m c) <-> In d (keys (m_der m)) /\ OnlyParams m d).
+Proof. exact (classification_top gen_sort_facts gen_sc). Qed.
+Print Assumptions C13_classification.
+
+(** C13-c: derived parameters and assignment-defined parameters keep their value for every
+    state and time (and that value is the cached one) *)
+Theorem C13_frozen :
+  forall fsem fsemN m c vars t e vars' t' e' k,
+    WF m -> create_cache fsem fsemN gen_sort_facts m = Val c ->
+    incl (keys vars) (keys (m_var m)) -> incl (keys vars') (keys (m_var m)) ->
+    get_args_raw fsem fsemN m c vars t = Val e ->
+    get_args_raw fsem fsemN m c vars' t' = Val e' ->
+    In k (derived_parameter_names m c) \/ (exists f a, In (k, IA f a) (m_par m)) ->
+    lookup k e = lookup k e' /\ lookup k e = lookup k (c_all_par c).
+Proof. exact (frozen_top gen_sort_facts gen_sc). Qed.
+Print Assumptions C13_frozen.
+
+(** "every other derived quantity, flux and computed coefficient is recomputed from the state
+    supplied" is C01_args_fully_resolved / C01_rhs_is_stoichiometry_times_rates (PropsC01.v). *)
+
+(** non-vacuity: the model of ExModel.v (assignment-defined parameter 2 and variable 4, derived
+    chain 6 -> 7 -> 8, derived 15 reading a data set, computed coefficients, 2-output surrogate)
+    is well formed, its cache is built, 6 and 7 are the derived parameters, 8 and 15 the derived
+    variables, and between two states the frozen names keep their values while 8 is recomputed *)
+Example C13_nonvacuous :
+  WF ex_model /\
+  exists c, create_cache FnLib.fsem FnLib.fsemN gen_sort_facts ex_model = Val c
+    /\ c_init c = [(3%N, 5%Z); (4%N, 10%Z); (5%N, 1%Z)]
+    /\ c_all_par c = [(1%N, 2%Z); (2%N, 4%Z); (6%N, 4%Z); (7%N, 8%Z)]
+    /\ derived_parameter_names ex_model c = [6; 7]%N
+    /\ derived_variable_names ex_model c = [8; 15]%N
+    /\ exists e e',
+         get_args_raw FnLib.fsem FnLib.fsemN ex_model c (c_init c) 0%Z = Val e
+         /\ get_args_raw FnLib.fsem FnLib.fsemN ex_model c [(3%N, 1%Z); (4%N, 2%Z); (5%N, 3%Z)] 3%Z = Val e'
+         /\ lookup 7%N e = Some 8%Z /\ lookup 7%N e' = Some 8%Z
+         /\ lookup 8%N e = Some 40%Z /\ lookup 8%N e' = Some 8%Z.
+Proof.
+  split; [exact ex_model_WF|].
+  eexists. split; [vm_compute; reflexivity|].
+  split; [vm_compute; reflexivity|]. split; [vm_compute; reflexivity|].
+  split; [vm_compute; reflexivity|]. split; [vm_compute; reflexivity|].
+  eexists. eexists. split; [vm_compute; reflexivity|]. split; [vm_compute; reflexivity|].
+  repeat split; vm_compute; reflexivity.
+Qed.
+Print Assumptions C13_nonvacuous.
